@@ -1035,10 +1035,25 @@ func runSenderCase(ctx *caseCtx, r mutRow, emit func(mutOutcome)) {
 		case "FileDone":
 			enc := encode(transfer.FileDone{StreamID: key, OK: false, ErrMsg: "boom"})
 			if r.Mutation == "filedone-twice" {
-				// the same file acknowledged twice (once the sender has had time to send it)
-				time.Sleep(time.Duration(50+ctx.rng.Intn(200)) * time.Millisecond)
-				ok := encode(transfer.FileDone{StreamID: key, OK: true})
-				reply = append(append([]byte(nil), ok...), ok...)
+				// every file is acknowledged twice, right after its FileEnd has been read from the sender
+				if _, herr := transfer.VerifReadControlHeader(cs); herr == nil {
+					deadline := time.Now().Add(3 * time.Second)
+					for time.Now().Before(deadline) {
+						_, msg, merr := transfer.VerifReadControlMessage(cs)
+						if merr != nil {
+							break
+						}
+						if fe, isEnd := msg.(transfer.FileEnd); isEnd {
+							ok := encode(transfer.FileDone{StreamID: fe.StreamID, OK: true})
+							cs.Write(ok)
+							cs.Write(ok)
+							o.Bytes += 2 * len(ok)
+						}
+						if msg == nil {
+							break
+						}
+					}
+				}
 			} else {
 				reply = mutateBytes(ctx.rng, enc, r.Mutation, 10, 2)
 			}
